@@ -9,8 +9,8 @@ import traceback
 from concurrent.futures import ProcessPoolExecutor
 
 VERIF = os.path.dirname(os.path.dirname(os.path.abspath(__file__)))
-EVID = os.path.join(VERIF, "evidence")
-REPLAYS = os.path.join(VERIF, "replays")
+EVID = os.environ.get("VERIF_EVID_DIR") or os.path.join(VERIF, "evidence")      # overridden only by mutation trials
+REPLAYS = os.environ.get("VERIF_REPLAY_DIR") or os.path.join(VERIF, "replays")
 KNOWN = os.path.join(VERIF, "known_findings.json")
 NPROC = int(os.environ.get("VERIF_JOBS", "16"))
 
